@@ -6,10 +6,14 @@ exec 9>/verif/.build.lock
 flock 9
 cd coq
 [ -f Makefile ] && [ Makefile -nt _CoqProject ] || coq_makefile -f _CoqProject -o Makefile
-timeout 3000 make -j16 "$@" > /verif/.build.log 2>&1 || { tail -40 /verif/.build.log; exit 1; }
+# -k: a proof file that no longer checks must not prevent the other properties from being checked;
+# the property files that depend on it fail in their own check
+status=ok
+timeout 3000 make -k -j16 "$@" > /verif/.build.log 2>&1 || { status=partial; grep -B2 -A12 "^Error\|Error:" /verif/.build.log | tail -40; }
+[ -f model.ml ] || { echo "extraction failed"; tail -20 /verif/.build.log; exit 1; }
 cd ../ocaml
 if [ ! -x model_driver ] || [ ../coq/model.ml -nt model_driver ] || [ driver.ml -nt model_driver ]; then
   cp ../coq/model.ml ../coq/model.mli .
   timeout 600 ocamlfind ocamlopt -O3 -w -a model.mli model.ml driver.ml -o model_driver
 fi
-echo build-ok
+echo build-$status
